@@ -84,8 +84,14 @@ def thermo_payload(spec, lv, bid, k):
     T = r.uniform(400, 2200, size=n)
     Y = r.uniform(0.0, 1.0, size=(n, len(SPECIES))) ** 4
     Y /= Y.sum(axis=1)[:, None]
+    if spec["data"].get("nearly_uniform"):
+        # a box of (almost) quiescent gas: the temperature varies by millikelvins, one radical by 1e-9 - every cell is still
+        # its own state
+        T = 300.0 + r.uniform(0.0, 2.5e-3, size=n)
+        Y = np.tile(Y[0], (n, 1))
+        Y[:, SPECIES.index("H")] = r.uniform(0.0, 1e-9, size=n)
     # a cell without temperature and one without composition (the cleaning rule)
-    if n > 2:
+    elif n > 2:
         # at positions that differ from box to box (a state left behind by another box of the same shape would show)
         T[(1 + bid + 2 * lv) % n] = 0.0
         Y[(2 + 3 * bid + lv) % n, :] = 0.0
@@ -301,6 +307,9 @@ def run(ctx, rep, model=True):
                                    layout=["scatter", "perm", "files"][i % 3], profile="plain")
         if i % 3 == 0:
             spec["subcycle"] = True; spec["step"] = 7
+        if i % 3 == 1:
+            # a writer that prints the min / max tables with six significant digits (validation with binary_data accepts them)
+            spec["rows_digits"] = 6; spec["data"]["field_scale"] = [1.0 / 3.0, 0.7, 1.1]; rep.count("input-extrema-printed-with-six-digits")
         names = list(dedup_names(spec["fields"]))
         kepts = [None, names[-1], " ".join(names[::-1]), f"nope {names[0]}", " ".join(names[1:])]
         for j, recipe in enumerate(["rec1", "rec2", "callable", f"rec4{i % 4}", "rec5"]):
@@ -318,6 +327,8 @@ def run(ctx, rep, model=True):
               ("HRR", "temp", None, None), ("SRi", None, ["N2", "AR", "OH"], None)]
     for i in range(nb):
         spec = species_spec(ctx.rng, nlev=[1, 2][i % 2])
+        if i % 4 == 2:
+            spec["data"]["nearly_uniform"] = True; rep.count("nearly-uniform-thermochemical-state")
         recipe, kept, sp, rx = combos[i % len(combos)]
         run_case(ctx, rep, spec, recipe, kept, serial=(i % 2 == 0), model=model, species=sp, reactions=rx,
                  start=[None, pools.order_reversed][i % 2], pressure=[1.0, 3.0, 0.5, 1.0, 2.0][i % 5])
